@@ -7,7 +7,7 @@ RULE = ("complete sessions (HLS-GMAC ciphered for suites 0/1/2 with valid and in
         "x every position of the session (= every reachable protocol state) x every kind of refused input built for that "
         "position (random bytes, truncation, bit flips, bad tag with a huge and with the next counter, wrong encryption key, "
         "wrong authentication key, wrong title, old and zero counter, plain response / notification on a ciphered connection, "
-        "stray association responses from another meter, authentic APDU of a kind not allowed in the state) followed by the "
+        "stray association responses from another meter, authentic APDU of a kind not allowed in the state, authentic HLS answers refused only after the state machine has moved: error status with a correct proof, empty / short proof) followed by the "
         "genuine continuation of the session; the whole script is run on the implementation and on the model (compared after "
         "every step: result, protocol state, both counters, meter title / mechanism / challenge, conformance, PDU size). "
         "non-trivial = scripts in which the inserted input was refused")
@@ -15,7 +15,8 @@ ASSUMPTIONS = ["observable state = protocol state, client and meter invocation c
                "mechanism, meter challenge, negotiated conformance and maximum PDU size (and the receive buffer, implementation only)"]
 impl = cc.impl
 # authentic inputs (refused only because of the state): their counter may be consumed
-AUTHENTIC = ("authentic_wrong_state", "exception_counter_error_high", "exception_counter_error_low")
+AUTHENTIC = ("authentic_wrong_state", "exception_counter_error_high", "exception_counter_error_low",
+             "authentic_hls_answer_error_status", "authentic_hls_answer_empty_proof", "authentic_hls_answer_short_proof")
 
 
 def sessions(ctx):
@@ -42,9 +43,17 @@ def run(ctx):
                 # authentic, but of a kind the state does not allow (a SET response is never expected where a GET response is, etc.)
                 wrong_kind = 13 if (ops[j][0] == 1 and before[0] != 8) else 10
                 bad["authentic_wrong_state"] = peer.ggc(plain_apdu(wrong_kind), ic=mic_now + 1)
+                # authentic ACTION responses that are refused only late - after the state machine has already moved -
+                # while the meter's HLS answer is awaited: a correct proof under an error status, an empty and a short proof
+                good = peer.hls_proof(client_challenge=cc.CHALLENGE_C, valid=True)
+                bad["authentic_hls_answer_error_status"] = peer.ggc(plain_apdu(15, data=cc.octet(good), status=1), ic=mic_now + 1)
+                bad["authentic_hls_answer_empty_proof"] = peer.ggc(plain_apdu(15, data=cc.octet(b""), status=0), ic=mic_now + 1)
+                bad["authentic_hls_answer_short_proof"] = peer.ggc(plain_apdu(15, data=cc.octet(good[:4]), status=0), ic=mic_now + 1)
             else:
                 bad["wrong_state"] = plain_apdu(13 if before[0] != 8 else 10)
             kinds = sorted(bad) if (ctx.thorough or j % 2 == 0 or ops[j][0] == 1) else sorted(bad)[::3]
+            if before[0] == 10:                      # awaiting the meter's HLS answer: always include the late refusals
+                kinds = sorted(set(kinds) | {k_ for k_ in bad if k_.startswith("authentic_hls_answer")})
             for kind in kinds:
                 scripts.append([k, c, ops[:j] + [[1, bad[kind]]] + ops[j:]])
                 meta.append((name, j, kind, before, base))
